@@ -83,6 +83,9 @@ func (c *seqCtl) holdAtNth(point string, n int) {
 }
 func (c *seqCtl) waitParked(point string) bool {
 	deadline := time.Now().Add(20 * time.Second)
+	if atomic.LoadInt32(&slowFails) >= 2 {
+		deadline = time.Now().Add(300 * time.Millisecond)
+	}
 	for {
 		c.mu.Lock()
 		ok := c.parkedAt == point
@@ -91,6 +94,7 @@ func (c *seqCtl) waitParked(point string) bool {
 			return true
 		}
 		if time.Now().After(deadline) {
+			atomic.AddInt32(&slowFails, 1)
 			return false
 		}
 		time.Sleep(20 * time.Microsecond)
@@ -159,12 +163,16 @@ func (w *bw) count() int {
 }
 // drainUntilClosed reads until the channel is closed; false if that does not happen within d.
 func (w *bw) drainUntilClosed(d time.Duration) bool {
+	if atomic.LoadInt32(&slowFails) >= 2 {
+		d = 300 * time.Millisecond
+	}
 	done := make(chan struct{})
 	go func() { w.pump(); close(done) }()
 	select {
 	case <-done:
 		return true
 	case <-time.After(d):
+		atomic.AddInt32(&slowFails, 1)
 		return false
 	}
 }
@@ -325,6 +333,9 @@ func (r *bkRig) exec(o wop) slot {
 
 // through waits until the slot has gone through the whole pipeline (committed; if valid: fanned out).
 func (r *bkRig) through(sl slot) {
+	if r.fail != "" {
+		return // the pipeline of this backend is already known to be broken: do not wait again
+	}
 	if !waitUntil(20*time.Second, func() bool { return r.b.GetCurrentRevision() >= sl.rev }) {
 		r.failf("stalled: committed revision %d never reached %d", r.b.GetCurrentRevision(), sl.rev)
 	}
@@ -973,7 +984,7 @@ func bkOverflow(w *coll, scratch string, parkDeleter bool) {
 	}
 	r0 := r.rev + 1
 	head := oc + 50
-	for i := 0; i < total; i++ {
+	for i := 0; i < total && r.fail == ""; i++ {
 		put()
 	}
 	r.sc.bulk(r0, uint64(head), key, val, append([]string{lHubItem(), lW("LProc", wt.id), lW("LProc", wt.id)}, mdrain...))
@@ -981,12 +992,27 @@ func bkOverflow(w *coll, scratch string, parkDeleter bool) {
 	if atomic.LoadInt32(&r.hk.drops) != 0 {
 		r.failf("a batch was dropped although only %d batches were unread", total)
 	}
+	bail := func() bool {
+		if r.fail == "" {
+			return false
+		}
+		go wt.pump() // let a hub stuck in a blocking send go on
+		wt.dead = true
+		r.close(w, "backend-overflow-stuck")
+		return true
+	}
+	if bail() {
+		return
+	}
 	if parkDeleter {
 		atomic.StoreInt32(&r.hk.parkDeleters, 1)
 	}
 	one(put()) // dropped
-	if !waitUntil(20*time.Second, func() bool { return atomic.LoadInt32(&r.hk.drops) >= 1 }) {
+	if r.fail == "" && !waitUntil(20*time.Second, func() bool { return atomic.LoadInt32(&r.hk.drops) >= 1 }) {
 		r.failf("no slow-subscriber drop after %d unread batches", total+1)
+	}
+	if bail() {
+		return
 	}
 	r.sc.drops(int(atomic.LoadInt32(&r.hk.drops)))
 	if parkDeleter {
@@ -997,8 +1023,19 @@ func bkOverflow(w *coll, scratch string, parkDeleter bool) {
 		wt.got = append(wt.got, fromProto(b[0]))
 		waitUntil(10*time.Second, func() bool { return len(wt.ch) == oc })
 		time.Sleep(2 * time.Millisecond)
-		sl := put()
-		if atomic.LoadInt32(&r.hk.drops) == 1 {
+		sl := r.exec(wop{kind: 1, key: key, val: val, exp: r.ref[string(key)].rev})
+		want := len(r.sigma)
+		syncDelete := false
+		if !waitUntil0(2*time.Second, func() bool { return r.monitor().count() >= want }) {
+			// the hub itself is running the deleter (synchronous delete, i.e. C05-F1 repaired): let it finish
+			syncDelete = true
+			r.hk.releaseDeleters()
+			r.sc.labs(lW("LConsume", wt.id), lW("LHubDelete", wt.id))
+		}
+		r.through(sl)
+		if syncDelete {
+			one(sl)
+		} else if atomic.LoadInt32(&r.hk.drops) == 1 {
 			r.sc.labs(lW("LConsume", wt.id), lW("LProc", wt.id), lW("LProc", wt.id))
 			one(sl) // accepted after a dropped batch
 			r.kinds["accepted-after-drop"] = true
